@@ -8,6 +8,7 @@ From Coq Require Import List String Bool Arith ZArith Lia.
 From Coq Require Import NArith.
 From IprV Require Import GenTypes Schema Visitor PrinterDispatch LiteralModel.
 From IprV.gen Require Import GenVisitor GenIface GenCategory GenPrinter.
+From IprV Require StateSpace.
 Import ListNotations.
 Local Open Scope string_scope.
 Local Open Scope list_scope.
@@ -227,6 +228,12 @@ Example c18_example_unguarded_type_cycle_is_detected :
   acyclic gen_pr_classes unguarded forward is_type_kind 64 [] (entry "xpr_type_visitor" "Tor") = false.
 Proof. vm_compute. reflexivity. Qed.
 
+(* the printer's own state is what the model tracks: stream, padding, pending newline and indentation, the location switch, the re-entry mark (StateSpace.v against the regenerated GenState) *)
+Theorem c18_state_is_what_the_model_abstracts :
+  StateSpace.state_as_modelled (StateSpace.printer_state) = true.
+Proof. vm_compute. reflexivity. Qed.
+
+Print Assumptions c18_state_is_what_the_model_abstracts.
 Print Assumptions c18_literal_writes_no_new_control_byte.
 Print Assumptions c18_literal_numbers_are_decimal.
 Print Assumptions c18_same_node_dispatch_acyclic.
